@@ -7,7 +7,7 @@
 static uint8_t *RX;                 /* the receive buffer handed to parseFrame */
 static lltd_iface_state *ST;
 static int g_class;                 /* which oracle on_send applies */
-enum { CL_NONE = 0, CL_QUERY, CL_HELLO, CL_EMIT, CL_QLTLV, CL_ANY, CL_PAIR };
+enum { CL_NONE = 0, CL_QUERY, CL_HELLO, CL_EMIT, CL_QLTLV, CL_ANY, CL_PAIR, CL_REL };
 
 static uint8_t g_rec_desc[20]; static unsigned g_rec_cnt; static bool g_rec_valid;
 static size_t g_last_len;
@@ -19,6 +19,7 @@ static void oracle_emit(const vcfg *c, const uint8_t *f, size_t n);
 static void oracle_qltlv(const vcfg *c, const uint8_t *f, size_t n);
 static void oracle_any(const vcfg *c, const uint8_t *f, size_t n);
 static void oracle_pair(const vcfg *c, const uint8_t *f, size_t n);
+static void oracle_rel(const vcfg *c, const uint8_t *f, size_t n);
 
 static void on_send(void *ctx, const uint8_t *f, size_t n) {
     const vcfg *c = (const vcfg *)ctx;
@@ -33,6 +34,7 @@ static void on_send(void *ctx, const uint8_t *f, size_t n) {
             case CL_QLTLV: oracle_qltlv(c, f, n); break;
             case CL_ANY: oracle_any(c, f, n); break;
             case CL_PAIR: oracle_pair(c, f, n); break;
+            case CL_REL: oracle_rel(c, f, n); break;
             default: V_ASSERT(0, "C02: no frame is sent in reaction to this class of frame");
         }
     } else {
@@ -314,5 +316,10 @@ void h_safety(void) {
 #include "blk_emit.h"
 #include "blk_qltlv.h"
 #include "blk_pair.h"
+#ifdef REL_CLASS
+#include "blk_rel.h"
+#else
+static void oracle_rel(const vcfg *c, const uint8_t *f, size_t n) { (void)c; (void)f; (void)n; }
+#endif
 
 MAIN_NATIVE
